@@ -446,6 +446,13 @@ Definition note_error (s : pool) : pool :=
   | _, _ => s
   end.
 
+(* a manager / worker / fault event on the current executor, seen from the pool *)
+Definition pex (s : pool) (ev : event) : pool :=
+  let s1 := with_cur s (fun e => step e ev) in
+  let s2 := mkPool (cur s1) (has_workers s1) (managed s1) (call s1) (outcomes s1)
+                   (if is_fault ev then S (n_faults s1) else n_faults s1) (consumed s1) (p_maxw s1) (p_qcap s1) in
+  note_error s2.
+
 Definition pstep (s : pool) (ev : pevent) : pool :=
   match ev with
   | WithEnter =>
@@ -465,7 +472,9 @@ Definition pstep (s : pool) (ev : pevent) : pool :=
     match call s with
     | Some _ => s
     | None =>
-      let '(s1, ok) := if managed s then (s, has_workers s) else configure s in
+      let '(s1, ok) := if managed s
+                       then (s, (has_workers s && match cur s with Some _ => true | None => false end)%bool)
+                       else configure s in
       if ok then set_call s1 (Some (mkCall n [] None false)) else s1
     end
   | Dispatch =>
@@ -518,11 +527,7 @@ Definition pstep (s : pool) (ev : pevent) : pool :=
     match ev with
     | Submit => s                        (* submissions only come from Dispatch *)
     | Shutdown _ => s                    (* shutdown only comes from _abort / get_reusable_executor *)
-    | _ =>
-      let s1 := with_cur s (fun e => step e ev) in
-      let s2 := mkPool (cur s1) (has_workers s1) (managed s1) (call s1) (outcomes s1)
-                       (if is_fault ev then S (n_faults s1) else n_faults s1) (consumed s1) (p_maxw s1) (p_qcap s1) in
-      note_error s2
+    | _ => pex s ev
     end
   end.
 
